@@ -111,6 +111,8 @@ def oracle_fwd(ctx, ops, impl, label):
             ctx.report(f"{label}: forwarder closed {f['cl']} times", {"op": op, "impl": im})
         if int(f["bad"]) > 0:
             ctx.report(f"{label}: ForwardDNS issued on a closed forwarder", {"op": op, "impl": im})
+        if int(f["cl"]) >= 1 and int(f.get("busy", "0")) > 0:
+            ctx.report(f"{label}: forwarder closed while {f['busy']} query(ies) were in flight on it", {"op": op, "impl": im})
         if op.split()[:2] == ["F", "reset"] and last is not None:
             pf = last[1]
             if pf.get("quiet") and pf["ret"] == "1" and pf["cl"] != "1":
